@@ -71,6 +71,11 @@ def correspondence(ctx, violations, known_hits):
     # the origin and then every word, in order, however many there are
     for pad, org in ((0x7FF8, "x3000"), (0x7FF9, "x3000"), (0x7FFA, "x3000"), (0x7FFB, "x0000"), (0xC000, "x0000"), (0xFFF0, "x0000"), (0xFFF8, "x0000"), (0xFFF9, "x0000")):
         progs.append((0, f".orig {org}\nlea r0 msg\nputs\nhalt\nmsg .stringz \"ok\"\npad .blkw x{pad:X}\n.fill xBEEF\n.fill xCAFE\n", b""))
+    # programs that EXECUTE the stack extension (and end): the object file must run like its source under the same flag
+    for feat in (1, 0):
+        progs.append((feat, "lea r0 m\npush r0\npop r1\nadd r0 r1 #0\nputs\ncall f\nhalt\nf ld r0 c\nout\nrets\nc .fill x21\nm .stringz \"ok\"\n", b""))
+        progs.append((feat, ".orig x4000\nand r2 r2 #0\nadd r2 r2 #3\nl push r2\nadd r2 r2 #-1\nbrp l\npop r0\nputn\npop r0\nputn\npop r0\nputn\nhalt\n", b""))
+        progs.append((feat, "add r0 r0 #1\n.fill xD040\nputn\nhalt\n", b""))      # a raw 0xD word (PUSH r1) reached at run time
     fuel = 20000
     model_obj = ctx.run_model([obj_case(f, t) for f, t, _ in progs], tag="obj")
     model_src = ctx.run_model([src_case(f, fuel, t, inp) for f, t, inp in progs], tag="src")
